@@ -48,6 +48,18 @@ def cases(tier, seed):
             out.append({"kind": "chunked_constructor", "N": Nk, "alphabet": [1.0, 2.0, 3.0, float("nan")], "first": float("nan") if first is None else first,
                         "sort": sort, "max_chunks": 2, "funcs": ["sum", "first"],
                         "name": f"GroupBy(chunked keys).sum/first == per-key definition/N={Nk} over {{1,2,3,null}} starting with {first}/every 2-chunk layout/sort={sort}"})
+    # (g) derived views of a grouping: .groups (label -> ascending row positions), ikey_count/key_count; symbolic codes, the sizes fork
+    for rep in ("contiguous", "chunked"):
+        for order in ([0, 1], [1, 0]) if tier == "quick" else ([0, 1, 2], [2, 0, 1], [1, 2, 0]):
+            G = len(order)
+            Nv = 4 if tier == "quick" else 5
+            lays = [None] if rep == "contiguous" else ([[2, 2]] if tier == "quick" else [[2, 3], [1, 2, 2]])
+            for lay in lays:
+                c = {"kind": "views", "N": Nv, "G": G, "rep": rep, "label_values": order,
+                     "name": f"GroupBy.groups / key counts/{rep}{'' if lay is None else ' ' + '+'.join(map(str, lay))}/labels {order}/N={Nv}", "witness": rep == "contiguous" and order == sorted(order)}
+                if lay:
+                    c["lengths"] = lay
+                out.append(c)
     # (e) range index
     for step in (-3, -2, -1, 1, 2, 3):
         out.append({"kind": "range_index", "N": N, "step": step, "name": f"factorize_range_index/step={step}/N={N}"})
@@ -68,6 +80,8 @@ def run_case(E, case):
         if k == "chunked_constructor":
             from . import constructor
             return constructor.run_case(E, case, PROP)
+        if k == "views":
+            return run_views(E, case)
     except (Unsupported, OutsideModel):
         raise
     raise Unsupported(k)
@@ -402,8 +416,109 @@ def replay_range_index(case, conc):
     return bool(bad), {"codes": jsonable(list(codes)), "index": str(idx)}
 
 
+# ------------------------------------------------------------------ derived views: groups, key counts
+def run_views(E, case):
+    """gb.groups lists, per label, exactly the ascending positions of its rows; labels without rows are absent; the lists partition the
+    non-null-key rows; ikey_count adds up to their number.  Codes are symbolic; every array size / split point that depends on them
+    forks over the values the solver says are possible."""
+    from ..models import LIndex
+    t0 = time.time()
+    N, G = case["N"], case["G"]
+    labels = case["label_values"]
+    inp = Inputs()
+    if case.get("lengths"):
+        st = ChunkedState(inp, case["lengths"], [min(L, G) for L in case["lengths"]], G)
+        codes = st.global_codes()
+    else:
+        st = None
+        codes = inp.codes("k", N, G)
+    merged = MergedRT()
+
+    def body():
+        if st is not None:
+            gb = make_gb(E, G, chunks=st.chunk_arrays(), pointers=st.pointer_arrays(), sort=True, index_sorted=False)
+        else:
+            gb = make_gb(E, G, codes=A(codes, "int64").tag("state:_group_ikey"), sort=True, index_sorted=False)
+        gb._result_index = LIndex(labels, "key")
+        groups = gb.groups
+        return groups, gb.ikey_count
+    paths = run_paths(body, prune=True)
+    bads = []
+    for pc, (groups, counts), rt in paths:
+        pcz = b_and(*pc) if pc else True
+        for kind, g_, c_, where in rt.obligations:
+            merged.obligations.append((kind, b_and(pcz, g_), c_, where))
+        merged.pre.extend(rt.pre)
+        keys = list(groups.keys())
+        if keys != sorted(keys):
+            bads.append((f"group labels not in ascending order: {keys}", pcz))
+        for g in range(G):
+            lab = labels[g]
+            n_g = count_true([c == g for c in codes])
+            if lab not in groups:
+                bads.append((f"label {lab} has rows but is missing from .groups", b_and(pcz, n_g > 0)))
+                continue
+            arr = groups[lab]
+            cells = arr.cells if isinstance(arr, A) else list(arr)
+            bads.append((f"label {lab}: number of positions listed == number of its rows", b_and(pcz, b_not(n_g == len(cells)))))
+            for j, p in enumerate(cells):
+                inb = b_and(p >= 0, p < N) if is_sym(p) else (0 <= p < N)
+                bads.append((f"label {lab}: position {j} is a row of that label", b_and(pcz, b_not(b_and(inb, gather(codes, p) == g)))))
+                if j:
+                    bads.append((f"label {lab}: positions ascending", b_and(pcz, b_not(cells[j - 1] < p))))
+        extra = [k_ for k_ in keys if k_ not in labels]
+        if extra:
+            bads.append((f"unknown labels {extra}", pcz))
+        cc = counts.cells if isinstance(counts, A) else list(counts)
+        nonnull = count_true([c >= 0 for c in codes])
+        from ..values import total
+        bads.append(("ikey_count adds up to the number of non-null-key rows", b_and(pcz, b_not(total(list(cc), 0) == nonnull))))
+    wit = []
+    if case.get("witness"):
+        wit = [("a label without rows", b_and(*[c != 0 for c in codes])), ("a null-key row between rows of one label", b_and(codes[0] == 0, codes[1] == -1, codes[2] == 0))]
+    dec = decide(inp, bads, merged, witnesses=wit)
+    r = _result(E, dec, t0, case, f"views:{case['rep']}:{'sorted' if labels == sorted(labels) else 'unsorted'} labels")
+    r["paths"] = len(paths)
+    return r
+
+
+def replay_views(case, conc):
+    from . import c03 as C3
+    import pandas as pd
+    N, G, labels = case["N"], case["G"], case["label_values"]
+    if case.get("lengths"):
+        loc = [conc[f"l{c}_"] for c in range(len(case["lengths"]))]
+        ptr = [conc[f"p{c}_"] for c in range(len(case["lengths"]))]
+        codes = [(-1 if x < 0 else p[x]) for l, p in zip(loc, ptr) for x in l]
+        gb = C3.real_gb(G, chunks=loc, pointers=ptr)
+    else:
+        codes = [int(x) for x in conc["k"]]
+        gb = C3.real_gb(G, codes=codes)
+    gb._result_index = pd.Index(labels, name="key")
+    gb._sort = True
+    gb._index_is_sorted = False
+    problems = []
+    try:
+        groups = gb.groups
+        counts = [int(x) for x in gb.ikey_count]
+    except Exception as e:      # noqa: BLE001
+        return True, f"real call raised {type(e).__name__}: {e}"
+    for g in range(G):
+        rows = [i for i in range(N) if codes[i] == g]
+        got = [int(x) for x in groups.get(labels[g], [])]
+        if got != rows:
+            problems.append(f"groups[{labels[g]}] = {got}, rows of that label are {rows}")
+    if sum(counts) != sum(1 for c in codes if c >= 0):
+        problems.append(f"ikey_count {counts} does not add up to the number of non-null-key rows")
+    if list(groups.keys()) != sorted(groups.keys()):
+        problems.append(f"labels not ascending: {list(groups.keys())}")
+    return bool(problems), {"problems": problems, "codes": codes, "labels": labels}
+
+
 def replay(case, conc, cand=None):
     k = case["kind"]
+    if k == "views":
+        return replay_views(case, conc)
     if k == "combine":
         return replay_combine(case, conc)
     if k == "monotonic":
@@ -419,7 +534,7 @@ def replay(case, conc, cand=None):
 
 
 META = {
-    "glue": ['groupby_lib/groupby/core.py::_factorize_group_key_in_chunks', 'groupby_lib/groupby/core.py::_group_sort_indexer', 'groupby_lib/groupby/core.py::count_ikey', 'groupby_lib/groupby/factorization.py::factorize_2d', 'groupby_lib/groupby/factorization.py::factorize_range_index', 'groupby_lib/groupby/factorization.py::monotonic_factorization'],
+    "glue": ['groupby_lib/groupby/core.py::groups', 'groupby_lib/groupby/core.py::ikey_count', 'groupby_lib/groupby/core.py::_build_group_sorted_indexer_numba', 'groupby_lib/groupby/core.py::_factorize_group_key_in_chunks', 'groupby_lib/groupby/core.py::_group_sort_indexer', 'groupby_lib/groupby/core.py::count_ikey', 'groupby_lib/groupby/factorization.py::factorize_2d', 'groupby_lib/groupby/factorization.py::factorize_range_index', 'groupby_lib/groupby/factorization.py::monotonic_factorization'],
     "bounds": {"quick": {"N": 4, "keys": "2 keys with label counts (2,2),(1,3),(3,2),(2,1); 3 keys (2,2,2),(2,1,2) at N=3", "monotonic chunks": "<= 2", "sorted indexer": "N=4, G=2"},
                "thorough": {"N": 6, "keys": "2-3 keys, label counts in 1..3", "monotonic chunks": "<= 3", "sorted indexer": "N=5, G=3"}},
     "enumerated": ["for the chunk-wise constructor path: every key sequence of the bound over {1,2,3,null} and every 2-chunk layout, sort on/off (values symbolic)",
